@@ -227,7 +227,7 @@ var ppBadFilters = []string{"goos:", "(goos:linux", ".config:x", "goos:/(/", "a 
 var ppTables = []string{".config", ".config", ".config", "goos", "goos,pkg", ".config@alpha", "pkg@alpha,goos", ".file", "", ".name", "note goos", ".config,goarch@alpha"}
 var ppRows = []string{".fullname", ".fullname", ".fullname", ".name", ".name,/n", ".fullname@alpha", "/n@num", "/n@(1 10 1k)", ".name@alpha /fmt", "pkg,.name", "/gomaxprocs@num,.name", ".fullname,/n@num"}
 var ppCols = []string{".file", ".file", ".file", "/fmt", "goos", ".file,/fmt", "/fmt@(json gob)", "/gomaxprocs@num", "note", ".file@alpha", "goos@(linux darwin)", ".config", "/n", "/n,.file"}
-var ppIgnores = []string{"", "", "", "note", ".file", "pkg,note", "/n", ".config", ".fullname", "goarch", "/gomaxprocs", "cpu note", "/n", "/n note"}
+var ppIgnores = []string{"", "", "", "note", ".file", "pkg,note", "/n", ".config", ".fullname", "goarch", "/gomaxprocs", "cpu note", "/n", "/n note", "note@(run1 run2)", "goos@(linux)", `note@("hw acceleration enabled" run1)`, "/fmt@(json)"}
 var ppBadProjs = []string{".unit", "goos@bogus", ".config@(a b)", "/n@(", "goos@fixed", "@alpha", "a,,b"}
 
 func ppGenFlags(r *hx.Rng) (ppFlags, string) {
